@@ -13,6 +13,7 @@ import (
 	"os/exec"
 	"path/filepath"
 	"strings"
+	"sync"
 	"testing"
 
 	"golang.org/x/crypto/ssh"
@@ -27,9 +28,11 @@ import (
 func TestC19(t *testing.T) {
 	m := mon.New(t, "C19")
 	defer m.Done()
-	m.Rule("streams: (main) (password, salt, rounds, keyLen) with lengths drawn from boundary sets — password 1..100 plus SHA-512 padding edges {111,112,127,128,129,300}, salt 1..64 plus {107,108,124,200} (salt‖be32 crossing SHA-512 blocks), rounds 1..32 weighted to {1,2,3}, keyLen 32k+{-1,0,1} for k=1..7, uniform 1..200, and {1,1023,1024} — Key via the ssh.VerifBcryptPBKDF re-export compared byte for byte with an executable spec of OpenBSD bcrypt_pbkdf on π-derived Blowfish; (invalid) every documented invalid class (empty password, empty salt, salt > 2^20, rounds < 1, keyLen > 1024) alone and combined must return an error, the adjacent valid boundary (salt = 2^20, keyLen = 1024, rounds = 1) must not; (openssh→go) ssh-keygen -a R writes a bcrypt-protected key that ssh.ParseRawPrivateKeyWithPassphrase must open to the same public key and reject under a wrong passphrase, with the ref and Key agreeing on the 48 derived bytes for the file's salt/rounds; (go→openssh) ssh.MarshalPrivateKeyWithPassphrase output must be opened by ssh-keygen -y -P. distinct key = (pwlen class, saltlen class, rounds class, blocks, keyLen mod 32 class) resp. (direction, R, key type, passphrase class); non-trivial = an oracle comparison or an expected-error observation was made")
+	m.Rule("streams: (main) (password, salt, rounds, keyLen) with lengths drawn from boundary sets — password 1..100 plus SHA-512 padding edges {111,112,127,128,129,300}, salt 1..64 plus {107,108,124,200} (salt‖be32 crossing SHA-512 blocks), rounds 1..32 weighted to {1,2,3}, keyLen 32k+{-1,0,1} for k=1..7, uniform 1..200, and {1,1023,1024} — Key via the ssh.VerifBcryptPBKDF re-export compared byte for byte with an executable spec of OpenBSD bcrypt_pbkdf on π-derived Blowfish; (invalid) every documented invalid class (empty password, empty salt, salt > 2^20, rounds < 1, keyLen > 1024) alone and combined must return an error, the adjacent valid boundary (salt = 2^20, keyLen = 1024, rounds = 1) must not; (openssh→go) ssh-keygen -a R writes a bcrypt-protected key that ssh.ParseRawPrivateKeyWithPassphrase must open to the same public key and reject under a wrong passphrase, with the ref and Key agreeing on the 48 derived bytes for the file's salt/rounds; (go→openssh) ssh.MarshalPrivateKeyWithPassphrase output must be opened by ssh-keygen -y -P. distinct key = (pwlen class, saltlen class, rounds class, blocks, keyLen mod 32 class) resp. (direction, R, key type, passphrase class); non-trivial = an oracle comparison or an expected-error observation was made. Cross-cutting monitors on every call: (retention) the last 8 returned keys are kept as returned and re-verified after every later call into the package (dedicated sequences alternate larger/smaller keyLen incl. 1024, and an error-returning call); (concurrent) 4 goroutines × 3 calls with different arguments, every result verified after all returned; (inputs) password and salt carry 24 sentinel octets of spare capacity and must be bit-identical after the call")
 	m.Assume("ref/bcryptpbkdf (own Blowfish from π via math/big, own eksblowfish and stride/fold logic transcribed from the OpenBSD description) is validated by Schneier's Blowfish vectors, the OpenBSD bcrypt_pbkdf vectors and by decrypting ssh-keygen output in its unit test; it uses the Go standard library SHA-512 and AES, which are trusted here; OpenSSH 9.2 ssh-keygen is the end-to-end witness")
 	m.Assume("keyLen = 0 is rejected by OpenBSD and accepted (empty key) by the package, which documents no such error: both outcomes are accepted; negative keyLen is outside the statement and only observed (counter), not judged")
+
+	c19Ret = newRetMon(m, 8)
 
 	// ---------- main: ref comparison ----------
 	pwSpecial := []int{1, 2, 55, 56, 63, 64, 65, 100, 111, 112, 127, 128, 129, 300}
@@ -178,8 +181,13 @@ func TestC19(t *testing.T) {
 		}
 	})
 
+	// ---------- retention sequences and concurrent callers ----------
+	c19Retention(m)
+	c19Concurrent(m)
+
 	// ---------- end to end with OpenSSH ----------
 	c19OpenSSH(m)
+	c19Ret.verify("end of run")
 
 	m.Gate("ref_comparisons", m.N(500, 15000), "valid argument sets compared with the OpenBSD executable spec")
 	m.Gate("multi_block_cases", m.N(100, 3000), "keyLen > 32: strided output over several blocks")
@@ -189,6 +197,11 @@ func TestC19(t *testing.T) {
 	m.Gate("keylen_1024_cases", 1, "maximum key length (32 blocks)")
 	m.Gate("invalid_arg_cases", m.N(100, 1000), "documented invalid arguments observed")
 	m.Gate("valid_boundary_cases", m.N(60, 600), "valid arguments adjacent to the documented limits")
+	m.Gate("retention_reverifications", m.N(3000, 100000), "earlier returned keys re-verified after later calls (ring of 8)")
+	m.Gate("retention_next_call_larger", m.N(80, 800), "a later call with a larger keyLen")
+	m.Gate("retention_next_call_smaller", m.N(80, 800), "a later call with a smaller keyLen")
+	m.Gate("concurrent_calls", m.N(288, 2880), "calls made from 4 concurrent goroutines, verified after all returned")
+	m.Gate("input_immutability_checks", m.N(1500, 40000), "password/salt (with sentinel-filled spare capacity) unchanged after the call")
 	m.Gate("openssh_to_go_opened", m.N(10, 40), "ssh-keygen written keys opened by ParseRawPrivateKeyWithPassphrase")
 	m.Gate("go_to_openssh_opened", m.N(6, 30), "MarshalPrivateKeyWithPassphrase output opened by ssh-keygen")
 }
@@ -210,10 +223,17 @@ func lenClass(n int, edges ...int) string {
 	return ">128"
 }
 
+// c19Ret retains the last 8 keys Key returned (per process) and re-verifies
+// them after every later call into the package.
+var c19Ret *retMon
+
 // c19Compare runs Key on a valid argument set and compares with the ref.
 func c19Compare(m *mon.M, pw, salt []byte, rounds, kl int, sample bool) {
-	got, err := ssh.VerifBcryptPBKDF(pw, salt, rounds, kl)
+	gpw, gsalt := guard(pw), guard(salt)
+	got, err := ssh.VerifBcryptPBKDF(gpw.b(), gsalt.b(), rounds, kl)
 	m.Eval()
+	checkInputs(m, "Key", map[string]any{"rounds": rounds, "keyLen": kl}, map[string]*guarded{"password": gpw, "salt": gsalt})
+	c19Ret.verify(fmt.Sprintf("Key(keyLen=%d)", kl))
 	blocks := (kl + 31) / 32
 	rcls := "r=1"
 	if rounds == 2 {
@@ -274,7 +294,109 @@ func c19Compare(m *mon.M, pw, salt []byte, rounds, kl int, sample bool) {
 		} else {
 			m.Violation("wrong-key:"+bcls+":"+rcls, wit)
 		}
+		return
 	}
+	// the returned key now belongs to the caller: keep it and watch it
+	c19Ret.add("bcrypt_pbkdf.Key", got, map[string]any{"pw": wit["pw"], "salt": wit["salt"], "rounds": rounds, "keyLen": kl})
+}
+
+// c19Retention: sequences of calls whose keyLen goes up and down; every key
+// returned earlier must survive every later call.
+func c19Retention(m *mon.M) {
+	lens := []int{32, 200, 1, 48, 33, 64, 16, 96, 31, 65}
+	m.Cases("retention", m.N(48, 480), func(i int64, r *rand.Rand) {
+		prev := -1
+		n := 6
+		for j := 0; j < n; j++ {
+			kl := lens[(int(i)+j*3)%len(lens)]
+			if j == 2 && i%8 == 0 {
+				kl = 1024 // the largest buffer the package ever needs
+			}
+			rounds := 1
+			if j == 4 {
+				rounds = 2
+			}
+			if prev >= 0 {
+				if kl > prev {
+					m.Count("retention_next_call_larger", 1)
+				} else if kl < prev {
+					m.Count("retention_next_call_smaller", 1)
+				}
+			}
+			prev = kl
+			c19Compare(m, mon.Bytes(r, 1+r.IntN(40)), mon.Bytes(r, 1+r.IntN(32)), rounds, kl, false)
+		}
+		// an error-returning call in between must not disturb retained keys either
+		ssh.VerifBcryptPBKDF(nil, []byte("s"), 1, 32)
+		c19Ret.verify("Key(empty password)")
+		m.Count("retention_sequences", 1)
+	})
+}
+
+// c19Concurrent: 4 goroutines × 3 calls with different arguments; each result
+// is verified only after all goroutines have returned (Key is a pure function
+// with no documented goroutine restrictions).
+func c19Concurrent(m *mon.M) {
+	m.Cases("concurrent", m.N(24, 240), func(i int64, r *rand.Rand) {
+		type call struct {
+			pw, salt   *guarded
+			rounds, kl int
+			got        []byte
+			err        error
+			pv         any
+		}
+		const G, C = 4, 3
+		var calls [G][C]*call
+		for g := 0; g < G; g++ {
+			for c := 0; c < C; c++ {
+				calls[g][c] = &call{pw: guard(mon.Bytes(r, 1+r.IntN(40))), salt: guard(mon.Bytes(r, 1+r.IntN(32))),
+					rounds: 1 + r.IntN(2), kl: mon.Pick(r, []int{1, 16, 32, 33, 48, 64, 65, 96})}
+			}
+		}
+		var wg sync.WaitGroup
+		for g := 0; g < G; g++ {
+			wg.Add(1)
+			go func(g int) {
+				defer wg.Done()
+				for c := 0; c < C; c++ {
+					x := calls[g][c]
+					x.pv, _ = mon.Panics(func() { x.got, x.err = ssh.VerifBcryptPBKDF(x.pw.b(), x.salt.b(), x.rounds, x.kl) })
+				}
+			}(g)
+		}
+		wg.Wait()
+		c19Ret.verify("concurrent Key calls")
+		for g := 0; g < G; g++ {
+			for c := 0; c < C; c++ {
+				x := calls[g][c]
+				m.Eval()
+				m.Count("concurrent_calls", 1)
+				wit := map[string]any{"goroutine": g, "call": c, "pw": mon.FullHex(x.pw.snap[:x.pw.n]), "salt": mon.FullHex(x.salt.snap[:x.salt.n]), "rounds": x.rounds, "keyLen": x.kl}
+				checkInputs(m, "Key-concurrent", wit, map[string]*guarded{"password": x.pw, "salt": x.salt})
+				if x.pv != nil {
+					wit["panic"] = fmt.Sprint(x.pv)
+					m.Violation("panic:concurrent-Key", wit)
+					continue
+				}
+				if x.err != nil {
+					wit["err"] = x.err.Error()
+					m.Violation("valid-args-rejected:concurrent", wit)
+					continue
+				}
+				want, rerr := ref.Key(x.pw.snap[:x.pw.n], x.salt.snap[:x.salt.n], x.rounds, x.kl)
+				if rerr != nil {
+					m.Inconclusive("ref rejects a valid argument set")
+					continue
+				}
+				m.Count("ref_comparisons", 1)
+				if !bytes.Equal(x.got, want) {
+					wit["got"], wit["want"] = mon.Hex(x.got), mon.Hex(want)
+					m.Violation("wrong-key-after-concurrent-calls", wit)
+				}
+			}
+		}
+		m.Distinct(fmt.Sprintf("concurrent 4x3 case%%8=%d", i%8))
+	})
 }
 
 var c19Pass = []struct{ cls, s string }{
@@ -348,6 +470,7 @@ func c19OpenSSH(m *mon.M) {
 			m.Violation("openssh-key-opened-to-wrong-key", wit)
 			return
 		}
+		c19Ret.verify("ParseRawPrivateKeyWithPassphrase")
 		m.Count("openssh_to_go_opened", 1)
 		m.Count(fmt.Sprintf("openssh_to_go_R=%d", R), 1)
 		if i < 2 {
@@ -398,6 +521,7 @@ func c19OpenSSH(m *mon.M) {
 			m.Violation("marshal-with-passphrase-failed:"+kt, map[string]any{"err": err.Error()})
 			return
 		}
+		c19Ret.verify("MarshalPrivateKeyWithPassphrase")
 		pemBytes := pem.EncodeToMemory(blk)
 		signer, err := ssh.NewSignerFromKey(priv)
 		if err != nil {
